@@ -242,6 +242,7 @@ fn now_ms() -> u64 {
 
 /// worker <id> <root> <start> <step> <max_index> <deadline_ms> <outfile> [digests]
 pub fn cmd_worker(args: &[String]) -> i32 {
+    warm_up();
     let id = &args[0];
     let root: u64 = args[1].parse().unwrap();
     let start: u64 = args[2].parse().unwrap();
@@ -261,7 +262,7 @@ pub fn cmd_worker(args: &[String]) -> i32 {
         return conc_worker(spec, root, start, step, max_index, deadline, outfile, want_digests, thorough, &known);
     }
     if spec.engine == Engine::Client {
-        return client_worker(spec, root, start, step, max_index, deadline, outfile, want_digests, &known);
+        return client_worker(spec, root, start, step, max_index, deadline, outfile, want_digests, thorough, &known);
     }
     let mut nontrivial: BTreeSet<u64> = BTreeSet::new();
     let mut states: BTreeSet<u64> = BTreeSet::new();
@@ -408,8 +409,10 @@ fn client_worker(
     deadline: u64,
     outfile: &str,
     want_digests: bool,
+    thorough: bool,
     known: &[KnownFinding],
 ) -> i32 {
+    use crate::client::ClientHistory;
     use crate::client_check::{client_signature, gen_client_history, minimise_client, run_client_in_thread, ClientReplay};
     let mut out = WorkerOut::default();
     let mut nontrivial: BTreeSet<u64> = BTreeSet::new();
@@ -474,8 +477,36 @@ fn client_worker(
             i += step;
             continue;
         }
-        let h = gen_client_history(spec.id, seed);
+        let base = gen_client_history(spec.id, seed);
+        // The history is first executed as generated (kills only between operations); it passes a number of client-dbm
+        // crash points (before/after every durable write and commit). Every other history is then re-executed with the
+        // client killed AT one of them (two sampled points; thorough: four), the same way the tower's Crash engine works.
+        let mut todo: Vec<ClientHistory> = vec![base.clone()];
+        let mut qi = 0usize;
+        while qi < todo.len() {
+        let h = todo[qi].clone();
+        qi += 1;
         let res = run_client_in_thread(&h);
+        // (not for C14: its statement is about replies, not kills; a kill between the delivery of a wrong-key
+        // acknowledgement and the commit of its proof legitimately loses the proof)
+        if qi == 1 && spec.id != "C14" && i % 2 == 0 && res.stats.crash_points > 0 && res.found.iter().all(|f| f.property != spec.id) {
+            let mut r = Rng::new(derive(seed, "client-crashpts", 0));
+            let n = res.stats.crash_points;
+            let k = if thorough { 4 } else { 2 };
+            let mut pts = BTreeSet::new();
+            let mut guard = 0;
+            while (pts.len() as u64) < (k as u64).min(n) && guard < 50 {
+                pts.insert(r.range(1, n));
+                guard += 1;
+            }
+            for pt in pts {
+                let mut hc = base.clone();
+                hc.crash_at = vec![pt];
+                todo.push(hc);
+            }
+            out.crash_points_numbered += n;
+            out.histories_enumerated += 1;
+        }
         out.runs += 1;
         out.ops += res.stats.ops;
         out.rpcs += res.stats.requests;
@@ -492,7 +523,7 @@ fn client_worker(
             nontrivial.insert(fnv64(serde_json::to_string(&(&h.cfg, &h.ops, &h.crash_at)).unwrap().as_bytes()));
         }
         if want_digests {
-            out.digests.insert(i, res.stats.digest);
+            out.digests.insert(i * 16 + qi as u64, res.stats.digest);
         }
         if out.samples.len() < 2 && start == 0 && res.stats.nontrivial {
             out.samples.push(json!({"index": i, "seed": h.seed, "cfg": h.cfg, "ops": h.ops.iter().take(40).collect::<Vec<_>>()}));
@@ -545,6 +576,7 @@ fn client_worker(
                 std::process::exit(2);
             }
             out.violations.push((sig, path.to_string_lossy().to_string(), f.detail.clone()));
+        }
         }
         i += step;
     }
@@ -1028,6 +1060,7 @@ pub fn cmd_selftest(args: &[String]) -> i32 {
 }
 
 pub fn cmd_replay(args: &[String]) -> i32 {
+    warm_up();
     let Some(path) = args.first() else { return 2 };
     if let Ok(text) = std::fs::read_to_string(path) {
         if let Ok(sr) = serde_json::from_str::<crate::store::StoreReplay>(&text) {
@@ -1142,7 +1175,46 @@ pub fn cmd_gen(args: &[String]) -> i32 {
     0
 }
 
+/// Executes one small simulation of every engine and throws the results away. Lazily initialised process-wide state
+/// (the cached initial chain of the node model, one-time initialisations inside dependencies) is built by whichever
+/// simulation runs first, and building it creates hash maps in that simulation's thread, which shifts the hash keys of
+/// everything created later in that thread: the first simulation of a process would not behave like the same
+/// simulation run later (found when a C12 replay did not reproduce in a fresh process). After the warm-up every
+/// simulation is a "later" one.
+pub fn warm_up() {
+    let _ = std::thread::spawn(|| {
+        let _ = crate::node::SimNode::new(crate::events::EventLog::new(), 101, false);
+    })
+    .join();
+    let h = gen::generate("C01", 0x5eed_0001, Profile::Breach);
+    let _ = run_in_thread(&h);
+    let h = gen::generate("C15", 0x5eed_0002, Profile::Http);
+    let _ = run_in_thread(&h);
+    let sc = crate::conc_check::gen_scenario("C10", 0x5eed_0003);
+    let _ = crate::conc::run_scenario(&sc, Some(crate::sched::Strategy::Random), None, 1, true);
+    let ch = crate::client_check::gen_client_history("C05", 0x5eed_0004);
+    let _ = crate::client_check::run_client_in_thread(&ch);
+    let sh = crate::store::gen_store_history(0x5eed_0005);
+    let _ = crate::store::run_store_in_thread(&sh);
+}
+
+/// find <Cxx> <seed>: which run index of the batch has this seed (debugging aid)
+pub fn cmd_find(args: &[String]) -> i32 {
+    let (Some(id), Some(seed)) = (args.first(), args.get(1).and_then(|s| s.parse::<u64>().ok())) else { return 2 };
+    for i in 0..5_000_000u64 {
+        for label in [format!("{id}-conc"), format!("{id}-client"), id.to_string()] {
+            if derive(root_seed(), &label, i) == seed {
+                println!("{label} index {i}");
+                return 0;
+            }
+        }
+    }
+    println!("not found");
+    1
+}
+
 pub fn cmd_one(args: &[String]) -> i32 {
+    warm_up();
     let spec = spec(&args[0]).unwrap();
     let idx: u64 = args[1].parse().unwrap();
     if spec.engine == Engine::Client {
